@@ -8,6 +8,7 @@ cd "$(dirname "$0")"
 python3 gen/scan_sites.py || echo "setup: scan_sites.py failed (reported by C09/C18)"
 python3 gen/ast2coq.py || echo "setup: ast2coq.py failed (reported by C13)"
 python3 gen/symkern.py || echo "setup: symkern.py failed (reported by C02 C03 C04 C06 C07)"
+python3 gen/symround.py || echo "setup: symround.py failed (reported by C16)"
 python3 gen/symops.py || echo "setup: symops.py failed (reported by C03 C04 C06 C07)"
 python3 gen/symops2.py || echo "setup: symops2.py failed (reported by C01 C02 C11 C12 C15)"
 cd coq
